@@ -53,6 +53,9 @@ SCALARS = {
     '2.0': 2.0, '-1.0': -1.0, '3.0': 3.0, '-2.0': -2.0,
     '0.5': 0.5, '-0.5': -0.5, '2.5': 2.5, '-1.5': -1.5,
     '1+2j': 1 + 2j, '1+1j': 1 + 1j, '2j': 2j, '2+0j': 2 + 0j, '1e-09': 1e-09, '1e-09j': 1e-09j,
+    # non-integers that are within rounding distance of an integer (e.g. (1-0.9)*10): still non-integer exponents
+    '1.999999999999': 1.999999999999, '0.9999999999999998': 0.9999999999999998, '3.0000000000000004': 3.0000000000000004,
+    '-1.0000000000001': -1.0000000000001, '1e-12': 1e-12,
 }
 
 
@@ -411,7 +414,8 @@ class ScalarArr(BinopFamily):
 
 
 EXPONENTS = ['0', '1', '2', '3', '-1', '-2', '-3', '2.0', '3.0', '-1.0', '-2.0', '0.0', '-0.0',
-             '0.5', '-0.5', '2.5', '-1.5', '1+1j', '2j', '2+0j']
+             '0.5', '-0.5', '2.5', '-1.5', '1+1j', '2j', '2+0j',
+             '1.999999999999', '0.9999999999999998', '3.0000000000000004', '-1.0000000000001', '1e-12']
 
 
 class Powers(BinopFamily):
@@ -445,7 +449,8 @@ class PowerSyntax(Family):
             '^(1+i), ^[1,2], ^(0*2)); oracle parses the exponent text by the documented right-associative rule')
     TEXTS = [('-1', -1.0), ('-2', -2.0), ('(-1)', -1.0), ('-0.5', -0.5), ('0.5', 0.5), ('2', 2.0),
              ('0', 0.0), ('2^1', 2.0), ('-1^3', -1.0), ('-2^0', -1.0), ('(1+i)', 1 + 1j), ('[1,2]', [1.0, 2.0]),
-             ('(0*2)', 0.0), ('3', 3.0), ('-3', -3.0), ('(1/2)', 0.5), ('(4/2)', 2.0), ('(-4/2)', -2.0), ('1.5', 1.5)]
+             ('(0*2)', 0.0), ('3', 3.0), ('-3', -3.0), ('(1/2)', 0.5), ('(4/2)', 2.0), ('(-4/2)', -2.0), ('1.5', 1.5),
+             ('((1-0.9)*10)', (1 - 0.9) * 10), ('(0.3/0.1)', 0.3 / 0.1), ('1.999999999999', 1.999999999999)]
     BASES = [spec_arr((2,), 'ra'), spec_arr((2, 3), 'ra'), spec_arr((2, 2), 'ra'), spec_arr((2, 2), 'ca'),
              spec_arr((2, 2), 'sg'), spec_arr((3, 3), 'rb'), spec_arr((3, 3), 'sg'), spec_arr((2, 2, 2), 'ra'),
              spec_arr((1, 2), 'ra'), spec_arr((4, 4), 'rf')]
